@@ -108,10 +108,14 @@ func judgeObligations(m *Model, seqs map[seqKey][]*Attempt, sendResolvedOf func(
 				continue
 			}
 			sr := sendResolvedOf(cfg, e.Receiver, e.Idx)
+			// several flushes of one group can complete at one instant (a timer reset to zero by an
+			// alert that is old enough): any of them may be the one that wrote the entry
 			var match *Attempt
 			for _, a := range seqs[seqKey{e.GroupKey, e.Receiver, e.Idx}] {
 				if a.OK() && a.Done.Equal(e.Timestamp) {
-					match = a
+					if f, _ := split(a); match == nil || len(f) == len(e.Firing) {
+						match = a
+					}
 				}
 			}
 			if match == nil {
